@@ -195,6 +195,53 @@ def scenario_parse(rng, tmp, i):
     return desc, compare_df(body, data.to_dataframe(), fmt, digits)
 
 
+def scenario_parse_many(rng, tmp, i):
+    """one `parse` invocation with several inputs (mock specifiers that share an identifier or not, and a file): one table per data
+    set the API returns for each input, none dropped, none printed twice"""
+    from pyimpspec import parse_data, generate_mock_data
+    digits = 9
+    srcs, expected = [], []
+    ident = rng.choice(["CIRCUIT_1", "CIRCUIT_2", "R{R=100}(R{R=200}C{C=1e-5})"])
+    k = rng.choice([2, 2, 3])
+    for j in range(k):
+        same = j == 0 or rng.random() < 0.7        # the same identifier again, with other settings
+        idj = ident if same else rng.choice(["CIRCUIT_3", "CIRCUIT_5", "R(RC)(RQ)"])
+        kw = {"num_per_decade": str(2 + j), "log_max_f": str(3 - j), "log_min_f": "0"}
+        if rng.random() < 0.4:
+            kw.update(noise="0.5", seed=str(rng.randint(0, 999)))
+        srcs.append("<%s:%s>" % (idj, ",".join("%s=%s" % kv for kv in kw.items())))
+        expected += list(generate_mock_data(idj, **{q: TYPES[q](v) for q, v in kw.items()}))
+    if rng.random() < 0.5:
+        f = [10 ** (4 - j / 2) for j in range(7)]
+        Z = [complex(10 ** rng.uniform(0, 3), -10 ** rng.uniform(0, 3)) for _ in f]
+        text, _ = F.table_text([(f, Z)], dict(alias_f="f", alias_a="z'", alias_b="z''", case="lower", suffix="", neg_a=False, neg_b=False, polar=False, sep=",", decimal="."))
+        src = os.path.join(tmp, "many_%d.csv" % i)
+        open(src, "w").write(text)
+        srcs.insert(rng.randint(0, len(srcs)), src)
+        expected += list(parse_data(src))
+    argv = ["parse"] + srcs + ["--output-format", "csv", "--output-significant-digits", str(digits)]
+    out, err = run_cli(argv)
+    desc = dict(command=argv)
+    if err:
+        return desc, "CLI raised " + err
+    tables = []
+    for fr in fragments(out):
+        lines = fr.splitlines()
+        while lines and not lines[0].startswith("f (Hz)"):
+            lines = lines[1:]                      # the heading that names the data set
+        if lines:
+            tables.append("\n".join(lines))
+    if len(tables) != len(expected):
+        return desc, "%d inputs denote %d data sets through the API, the CLI printed %d tables" % (len(srcs), len(expected), len(tables))
+    left = list(tables)
+    for d in expected:
+        hit = next((t for t in left if compare_df(t, d.to_dataframe(), "csv", digits) is None), None)
+        if hit is None:
+            return desc, "no printed table equals the data set '%s' (%d points) that the API returns for one of the inputs" % (d.get_label(), d.get_num_points())
+        left.remove(hit)
+    return desc, None
+
+
 def scenario_circuit(rng, tmp, i):
     from pyimpspec import parse_cdc, simulate_spectrum
     from pyimpspec.analysis.utility import _interpolate
@@ -357,7 +404,7 @@ def run(rep, tier, seed, tr_errors):
     cwd = os.getcwd()
     try:
         os.chdir(tmp)
-        plan = [(scenario_parse, 24 if tier == "quick" else 120), (scenario_circuit, 10 if tier == "quick" else 60), (scenario_fit, 4 if tier == "quick" else 16), (scenario_drt, 6 if tier == "quick" else 18)]
+        plan = [(scenario_parse, 24 if tier == "quick" else 120), (scenario_parse_many, 8 if tier == "quick" else 40), (scenario_circuit, 10 if tier == "quick" else 60), (scenario_fit, 4 if tier == "quick" else 16), (scenario_drt, 6 if tier == "quick" else 18)]
         for fn, n in plan:
             for i in range(n):
                 try:
